@@ -32,6 +32,8 @@ func init() {
 
 func runC18(c *eng.Ctx) {
 	p := c.P
+	reportedStateIsTheLiveState(c)
+	everyEventIsQueued(c)
 	online := constOf0(c, "models", "OnlineShard")
 	offline := constOf0(c, "models", "OfflineShard")
 	noLeader := constOf0(c, "models", "NoLeader")
